@@ -20,6 +20,7 @@ def dispatch (cmd : String) (args : List Sexp) : Option String :=
   | "canon" => Driver.Minify.canon args
   | "transform" => Driver.Minify.transform args
   | "pycore.run" => Driver.PyCore.runCmd args
+  | "pycore.runO" => Driver.PyCore.runOCmd args
   | "hoist.place" => Driver.Rename.hoistPlace args
   | "rename.assign" => Driver.Rename.assignCmd args
   | "ministring" => Driver.Strings.ministring args
